@@ -79,7 +79,7 @@ def _enter(entry, spec, root, opts, on_init, captured):
             args.append("-fg")
         sys.argv = args + [path]
         try:
-            with contextlib.redirect_stdout(io.StringIO()):
+            with contextlib.redirect_stdout(io.StringIO()), contextlib.redirect_stderr(io.StringIO()):
                 mmod.main()
         except SystemExit as e:
             code = e.code
@@ -93,7 +93,7 @@ def _enter(entry, spec, root, opts, on_init, captured):
         sys.argv = words[1:]
         code = None
         try:
-            with contextlib.redirect_stdout(io.StringIO()):
+            with contextlib.redirect_stdout(io.StringIO()), contextlib.redirect_stderr(io.StringIO()):
                 cmod.main()
         except SystemExit as e:
             code = e.code
@@ -237,7 +237,7 @@ def deliver_cancel(rng, root):
     sys.argv = ["maestro", "cancel"] + dirs
     builtins.input = lambda *_a: "y"
     try:
-        with contextlib.redirect_stdout(io.StringIO()):
+        with contextlib.redirect_stdout(io.StringIO()), contextlib.redirect_stderr(io.StringIO()):
             mmod.main()
     except SystemExit:
         pass
@@ -256,6 +256,8 @@ def run(ctx, rng, k, cancel_prob=0.0, max_polls=40, local_prob=0.0, entry="direc
     from maestrowf.conductor import Conductor
     from maestrowf.datastructures.core.executiongraph import ExecutionGraph
     root = os.path.join(ctx.scratch, "cond", "c%s" % k)
+    import common
+    common.next_logging()
     if spec is None:
         spec = SS.gen_spec(rng, root, adversarial=False)
     else:
